@@ -143,6 +143,32 @@ def render_fixed(table, widths, eol="\n", final_eol=True):
 # --------------------------------------------------------------------------------------------
 # the client: step-wise use of the real API
 # --------------------------------------------------------------------------------------------
+class ReturnedRowChanged(Exception):
+    """A row object handed out by a reader was modified by the reader afterwards."""
+
+
+class CallerRowsChanged(Exception):
+    """A writer modified the row objects the caller passed in."""
+
+
+def collect_rows(iterable):
+    """Like ``[list(row) for row in iterable]`` but also notices a reader that goes on using (re-filling) a row
+    object after it has handed it out: a returned row belongs to the caller."""
+    kept, copies = [], []
+    for row in iterable:
+        kept.append(row)
+        copies.append(list(row))
+    for index, (row, copy_) in enumerate(zip(kept, copies)):
+        if list(row) != copy_:
+            raise ReturnedRowChanged("row %d was %r when returned and is %r now" % (index, copy_, list(row)))
+    return copies
+
+
+def check_rows_untouched(given, original):
+    if [list(row) for row in given] != [list(row) for row in original]:
+        raise CallerRowsChanged("rows passed to the writer were %r and are %r now" % (original, given))
+
+
 class ReadRun(object):
     """One read through the real API, advanced by ``step()``; records everything it sees.
 
@@ -157,6 +183,7 @@ class ReadRun(object):
         self.mode = mode
         self.items = []  # ["row", row] | ["err", summary]
         self.held = []  # (error object, summary when yielded, item index)
+        self.held_rows = []  # (row object as handed out, its content at that moment, item index)
         self.raised = None  # exception object escaping a step
         self.exhausted = False
         self.closed = None  # None | "ok" | exception object
@@ -208,6 +235,7 @@ class ReadRun(object):
             self.items.append(["err", summary])
         else:
             self.items.append(["row", list(item)])
+            self.held_rows.append((item, list(item), len(self.items) - 1))
         return True
 
     def close(self):
@@ -227,6 +255,14 @@ class ReadRun(object):
             now = error_summary(error)
             if now != summary:
                 return index, summary, now
+        return None
+
+    def rows_changed(self):
+        """First returned row whose content is no longer what it was when it was handed out (a row belongs to
+        the caller from then on), or None."""
+        for row, content, index in self.held_rows:
+            if list(row) != content:
+                return index, content, list(row)
         return None
 
     def stream_closed_behind_callers_back(self):
